@@ -35,7 +35,9 @@ func c01(c *Ctx) {
 			mode = hugeMode(i)
 		}
 		if class == "tall" {
-			mode = []uint32{1025, 1026, 1024, 64}[(i/tallEvery)%4]
+			// (fixed sizes between half the document count and 1024 give the same number
+			// of chunks as the coder's initial size of 1024, with other boundaries)
+			mode = []uint32{1025, 1026, 1024, 64, 1023, 700, 1026, 1000, 1025, 560}[(i/tallEvery)%10]
 		}
 		if class == "multi" {
 			mode = []uint32{1026, 1025}[(i/61)%2]
